@@ -4,6 +4,7 @@ Import ListNotations.
 Require Import Scan Pos DQ SQ.
 Require Emit EmitSQ EmitDQ Plain EmitPlain AnalysisPlain.
 Require Represent ParserGrammar EmitGrammar SerializeGrammar.
+Require Construct Represent IntRoundTrip.
 
 (* KIND C02_double_quoted_scalar_roundtrip : U *)
 (* for EVERY text t over printable ASCII (spaces, apostrophes included), the 15 single-letter escapes and \xHH code points,
@@ -136,6 +137,14 @@ Example C02_dumped_cycle :
   | _ => False
   end.
 Proof. exact SerializeGrammar.dumped_cycle. Qed.
+
+(* KIND C02_int_roundtrip : U *)
+(* EVERY integer the representer model writes (every z whose decimal form has at most 4300 digits - CPython's limit: beyond it str(int) refuses and
+   the model's int_text returns None) is read back by the constructor model's construct_yaml_int as the same integer: sign, no leading zero, no
+   octal / sexagesimal / underscore reading of a decimal text (Proofs/IntRoundTrip.v) *)
+Theorem C02_int_roundtrip : forall z t, Represent.int_text z = Some t -> Construct.construct_int t = Construct.COk z.
+Proof. exact IntRoundTrip.int_text_roundtrip. Qed.
+Eval vm_compute in "ASSUME:C02_int_roundtrip"%string. Print Assumptions C02_int_roundtrip.
 
 (* PARTIAL (FULL: forall v opts, load (dump v opts) ~ v): only the double-quoted (the universal fallback style) and single-quoted scalar layers
    without folding is a theorem.  Value<->node, node<->event and the other four scalar styles are decided by the
